@@ -787,6 +787,14 @@ func init() {
 		for _, size := range []int{0, 161, 1000} {
 			js = append(js, mk(sprintf("c15.resize.size%d", size), hashmapPkg, "ZZ_C15_Resize", map[string]int{"size": size}, func(b *Bounds) { b.Unwind = 140 }))
 		}
+		sparse := [][2]int{{11, 0}, {13, 1}}
+		if tier == "thorough" {
+			sparse = [][2]int{{11, 0}, {13, 0}, {15, 0}, {11, 1}, {13, 1}}
+		}
+		for _, x := range sparse {
+			js = append(js, mk(sprintf("c15.sparse_resize.keys%d.parallel%d", x[0], x[1]), hashmapPkg, "ZZ_C15_SparseResize",
+				map[string]int{"keys": x[0], "parallel": x[1]}, func(b *Bounds) { b.Unwind = 300; b.Procs = 4; b.MaxPaths = 400000; b.MaxWallS = 1500 }))
+		}
 		pre := 2
 		if tier == "thorough" {
 			pre = 3
